@@ -8,6 +8,7 @@ import subprocess
 VERIF = os.path.dirname(os.path.dirname(os.path.abspath(__file__)))
 KIND = {'bdd_simple': 'bdd', 'bcdd': 'bcdd', 'zbdd': 'zbdd', 'mtbdd': 'mtbdd', 'tdd': 'tdd'}
 GROUPS = [
+    (r'^eval_edge', ['eval']),
     (r'pick_cube|literal_set_pop|add_literal', ['pick_cube']),
     (r'apply_quant|apply_(forall|exists|unique)', ['apply_quant', 'quant']),
     (r'quant|forall|exists|unique|set_pop', ['quant', 'apply_quant']),
